@@ -89,20 +89,21 @@ class Vdir_import_one:
 
     def requires(self, name, content_type):
         return ((name is not None or content_type is not None)
-                and implies(name is not None, vdir_name(name))
+                and implies(name is not None, vdir_name(name) or name == ".xandikos")
+                and implies(name is None, effective_name(name, content_type) != ".xandikos")
                 # no sub-directory is in the way of the item or of its temporary file
                 and effective_name(name, content_type) not in fs_subdirs(self.path)
                 and effective_name(name, content_type) + ".tmp" not in fs_subdirs(self.path)
                 and forall("opaque:File", lambda f: implies(valid_file(f), uid_outcome(f) != 2)))
 
     def raises_InvalidFileContents(self, name, content_type, data):
-        return not valid_file(upload_file(self, name, content_type, data))
+        return not accepted_upload(self, name, content_type, data)
 
     def raises_DuplicateUidError(self, name, content_type, data):
-        return valid_file(upload_file(self, name, content_type, data)) and vdir_refused_dup(self, name, content_type, data)
+        return accepted_upload(self, name, content_type, data) and vdir_refused_dup(self, name, content_type, data)
 
     def raises_InvalidETag(self, name, content_type, data, replace_etag):
-        return (valid_file(upload_file(self, name, content_type, data))
+        return (accepted_upload(self, name, content_type, data)
                 and not vdir_refused_dup(self, name, content_type, data)
                 and replace_etag is not None
                 and self.ghost_M.get(effective_name(name, content_type)) != replace_etag)
